@@ -24,7 +24,7 @@ ID = "C16"
 LEVEL = "exploration"
 TIERS = {
     "quick": {"shards": 128, "examples": 80, "det_shards": 2},
-    "thorough": {"shards": 1024, "examples": 300, "det_shards": 8},
+    "thorough": {"shards": 2048, "examples": 300, "det_shards": 8},
 }
 RULE = ("case = one assignment of values to (option, source) pairs over the input/output/rst sections and the sources "
         "{command line, -s file, user config in ~/.config | $XDG_CONFIG_HOME | $CMINXDIR}, with a cwd, a spelling of -s, and "
